@@ -168,6 +168,23 @@ func (self *Traveller) submitFlight(flight *Flight,now EpochTime, taxiOH Kilomet
 	return 0,0,nil
 }
 
+// addFollowOnFlight adds a further flight of a check-in whose first flight has
+// been accepted by submitFlight: the flight is added to the history and debited
+// like the first one, without asking again whether the traveller is cleared
+func (self *Traveller) addFollowOnFlight(flight *Flight,now EpochTime, taxiOH Kilometres, debit bool) error {
+	err := self.tripHistory.AddFlight(flight)
+	if err != nil {
+		return err
+	}
+	if debit {
+		self.transact(-flight.Distance,now,TTFlight)
+		if (taxiOH != 0) {
+			self.transact(-taxiOH,now,TTTaxiOverhead)
+		}
+	}
+	return nil
+}
+
 // generateKey generates a unique key based on the contents of a
 // Passport struct. as the SHA1 of fields in the passport structure.
 // Note hash algorithm is use to ensure no hotspots when iterating over
